@@ -6,6 +6,7 @@
      generators/base/template_context.rs  NamingContext::apply_naming_convention (CamelCase computed at the
                                 call site), compute_field_name, compute_variant_name
      crate serde-rename-rule 0.2.3         RenameRule::apply_to_field, apply_to_variant, from_rename_all_str
+   analysis/struct_parser.rs  field.ident.unraw() / variant.ident.unraw()  (C01-raw-ident-strip)
    State of the code: /repo with the repairs C06-1-variant-rule, C06-6-variant-skip,
    C15-fix-C15-rename-restart-offset and C15-fix-C15-camel-call-site-guard applied.
    The serde scanners are a private copy of the ones in Model/Scan.v (shared with C11),
@@ -270,13 +271,16 @@ Definition compute_variant_name (name : str) (rename : option str) (ra : option 
 (* parse_field drops a struct field whose skip flag is set; parse_enum filters variants with the same
    flag. The generators print serialized_name of every remaining FieldInfo, in order:
    compute_field_name for fields, compute_variant_name for variants (rust_type starting with enum_variant). *)
+(* syn IdentExt::unraw: the raw-identifier prefix is not part of the name *)
+Definition unraw (s : str) : str := if starts (L "r#") s then skipn 2 s else s.
+
 Fixpoint emit_raw (k : kind) (dfc : str) (ra : option rule) (l : list (str * list str)) : list str :=
   match l with
   | [] => []
   | (ident, toks) :: r =>
       let '(rn, sk) := field_attrs toks in
       if sk then emit_raw k dfc ra r
-      else (if is_struct k then compute_field_name dfc ident rn ra else compute_variant_name ident rn ra)
+      else (if is_struct k then compute_field_name dfc (unraw ident) rn ra else compute_variant_name (unraw ident) rn ra)
            :: emit_raw k dfc ra r
   end.
 (* the same on token strings given directly (attribute text outside the syntax above) *)
